@@ -1691,12 +1691,16 @@ func init() {
 			"the callback appends one or two cells to the row it is called for, to another row, adds a separator, a row, a pre-built row, a new header, for header rows only / body rows only / both, a bounded number of times) " +
 			"and may add cells later to a header row such a callback was handed (also one that has been replaced): every call, the program's or a callback's, is logged when it is made and that log is the history; the table is then dumped after every call of the PROGRAM (Spec/HistorySegs.v); " +
 			"a program may build two tables and pass one *Row to both tables' AddRow (each table is then judged on its own history, in which the other table's AddRow is the op OtherAddRow); " +
+			"the table VALUE may be the core table or a stack of 1..3 rendering wrappers around it (csv, html, json, markdown, texttable by Wrap or by the package's New, auto.New / auto.Wrap of 8 style strings), all building calls made on one level of the stack and the table looked at through the same or another level (c02_r6.go); " +
+			"an add-time callback may return an error (for every / every second target) and may make no building call at all; " +
 			"the table is dumped after every op (after the last op only for the histories that build rows of 255..1030 cells or tables of 255..300 rows); " +
 			"a case is non-trivial when the table ends with at least one row or a header; distinct = distinct history",
 		Exhaustive: "all valid histories of exactly 3 ops over the full alphabet (cell counts 0/1/2, distinct items) and exactly 4 ops over the reduced alphabet (cell counts 0/1, no NewRowSizedFor) in the quick tier, " +
 			"4 (full) and 5 (reduced) in the thorough tier; each is dumped after every op, so all shorter histories are covered as prefixes; " +
 			"all header / row contents of length <= 3 (4 thorough) over {two texts, the empty text} in 12 shapes, all header contents of length 4 (and 5) alone, all pairs of successive headers of length <= 2; " +
 			"every item type x every container length as the lone argument / first / second of two for AddHeaders, AddRowItems and Row.Add in 6 shapes; " +
+			"for each wrapper of the five sub-packages (by Wrap, by New) all histories of exactly 2 ops over the full alphabet, for auto.New of 8 styles over the reduced one (thorough: 3 ops, 52 ways of getting and using one wrapper); header width none/0..2 x row width 0..3 x 4 entry points x header before/after the row, on the core table (to 3 x 4) and through every wrapper; " +
+			"for each place of registration of a callback that returns an error all continuations of exactly 2 ops (3 thorough); " +
 			"for each of 40 callback registrations (where x what it does x for which targets) all continuations of exactly 2 ops (3 for the body-row 'total cell' callback; one more in the thorough tier) in which the callback can fire",
 		Gen: func(r *RNG, tier string) []json.RawMessage {
 			var out []json.RawMessage
